@@ -185,7 +185,7 @@ func (c *ctx) connInfo(id int) winfo {
 			w.getOK = int(e.A)
 			w.secret = e.Bytes
 		case "read-end":
-			if e.S == "i/o timeout" && e.Seq < drain {
+			if strings.HasSuffix(e.S, "i/o timeout") && e.Seq < drain {
 				w.timeout = true
 			}
 		}
